@@ -26,6 +26,7 @@ type Case struct {
 type Run struct {
 	Procs   int            `json:"procs"`
 	Profile int            `json:"profile"`
+	Reader  string         `json:"reader"` // io.Reader behaviour the bytes were delivered through (layout, not judged)
 	HFirst  bool           `json:"hfirst"`
 	Header  pbfrec.RHeader `json:"header"`
 	HErr    string         `json:"herr"`
@@ -58,8 +59,9 @@ func main() {
 			}
 			for _, procs := range c.Procs {
 				hfirst := (pi+procs+int(crc32.ChecksumIEEE(line)%2))%2 == 0 // a function of the case text only (replayable)
-				r := pbfrec.Scan(data, procs, hfirst, nil, nil, 60*time.Second)
-				run := Run{Procs: procs, Profile: pi, HFirst: hfirst, Elems: []interface{}{}}
+				rk := pbfrec.ReaderKindFor(line, *seed, pi, procs)
+				r := pbfrec.ScanFrom(pbfrec.NewReader(rk, data, *seed), procs, hfirst, nil, nil, 60*time.Second)
+				run := Run{Procs: procs, Profile: pi, Reader: rk, HFirst: hfirst, Elems: []interface{}{}}
 				if r.Hang {
 					run.Err, run.HErr = "hang", "hang"
 					run.Header = p.RecHeader(nil)
